@@ -28,8 +28,8 @@ const (
 // committee index) that distinguishes them. gen selects the table generation (bumped by a reorg).
 type vBeacon struct {
 	Client
-	present [2][vEpochs][vVals][2]bool
-	tag     [2][vEpochs][vVals][2]byte
+	present [vGens][vEpochs][vVals][2]bool
+	tag     [vGens][vEpochs][vVals][2]byte
 	gen     int
 	calls   int
 	lastEp  eth2p0.Epoch
@@ -102,6 +102,9 @@ func vLenDigit(lens, i int) int {
 }
 
 // vRes is the normalised form of an answer: (validator, tag) pairs.
+// vGens: table generations (the initial one and one per reorg, two reorgs at most).
+const vGens = 3
+
 type vRes struct {
 	val []uint64
 	tag []byte
@@ -152,7 +155,7 @@ func VerifC20Cache() {
 	ops := vrt.Param("ops")
 	typ := vrt.Param("typ")
 	b := &vBeacon{}
-	for g := 0; g < 2; g++ {
+	for g := 0; g < vGens; g++ {
 		for e := 0; e < vEpochs; e++ {
 			for v := 0; v < vVals; v++ {
 				for j := 0; j < 2; j++ {
@@ -163,9 +166,9 @@ func VerifC20Cache() {
 						// and with a different tag (slot) than the first
 						vrt.Assume(!b.present[g][e][v][1] || (vrt.Param("two") == 1 && b.present[g][e][v][0] && b.tag[g][e][v][1] != b.tag[g][e][v][0]))
 					}
-					if g == 1 && e == 0 {
+					if g >= 1 && e == 0 {
 						// a reorg back to epoch vE0 leaves that epoch's assignment unchanged
-						vrt.Assume(b.present[1][0][v][j] == b.present[0][0][v][j] && b.tag[1][0][v][j] == b.tag[0][0][v][j])
+						vrt.Assume(b.present[g][0][v][j] == b.present[0][0][v][j] && b.tag[g][0][v][j] == b.tag[0][0][v][j])
 					}
 				}
 			}
@@ -249,7 +252,9 @@ func VerifC20Cache() {
 		case 1:
 			// reorg back to epoch vE0: the later epoch's assignment changes
 			c.InvalidateCache(context.Background(), vE0)
-			b.gen = 1
+			if b.gen < vGens-1 {
+				b.gen++ // every reorg brings a new assignment for the later epoch (a second reorg to the same epoch too)
+			}
 		case 2:
 			c.Trim(eth2p0.Epoch(vE0 + 1 + dutiesCacheTrimThreshold))
 		}
